@@ -435,7 +435,9 @@ class PrefetchedCourierServer(CourierServer):
   def _next_batch(self, batch_size: int = 0) -> bytes:
     """Get the next batch from the iterator."""
     self._last_heartbeat = time.time()
-    if self._generator is None:
+    # Reads the generator once: another client can re-initialise it meanwhile.
+    generator = self._generator
+    if generator is None:
       e = TimeoutError(
           'Generator is not set, the worker might be killed previously, the'
           ' task normally will be restarted. This could be caused by worker'
@@ -448,7 +450,7 @@ class PrefetchedCourierServer(CourierServer):
     result = []
     try:
       batch_size = lazy_fns.maybe_make(batch_size)
-      result = self._generator.get_batch(batch_size, block=True)
+      result = generator.get_batch(batch_size, block=True)
     except Exception:  # pylint: disable=broad-exception-caught
       # The sequence of the result will always end with an exception.
       # Any non-StopIteration means the generator crashed. The exception
@@ -456,8 +458,8 @@ class PrefetchedCourierServer(CourierServer):
       pass
 
     # Generator is exahusted either normally or due to an exception.
-    if not self._generator:
-      if (e := self._generator.exception) is not None:
+    if not generator:
+      if (e := generator.exception) is not None:
         if self._shutdown_requested:
           e = TimeoutError('Shutdown requested, cannot get next batch.')
         logging.exception(
@@ -466,7 +468,7 @@ class PrefetchedCourierServer(CourierServer):
         )
         result.append(e)
       else:
-        result.append(StopIteration(*self._generator.returned))
+        result.append(StopIteration(*generator.returned))
     return self._return_pickled(result)
 
   def set_up(self) -> None:
